@@ -2,30 +2,34 @@
 Every function here ends in LAPACK (SVD, eigh, LU pivots, eigsh, Brent minimisation): there is no value-symbolic contract a solver
 can discharge, so the contracts are checked at run time on seeded inputs (BOUNDED, never counted as proved). Proved core: the
 index tables of the antisymmetric / symmetric projectors the hierarchy is built from (exhaustive finite identities, exact integers)."""
-import itertools, math
+import itertools, math, time
 import numpy as np
 import numqi
 import numqi.matrix_space as MS
 import numqi.matrix_space._hierarchy as H
 from vf.prover import ob, jsonable, from_repo
+from vf.sched import Unsupported
 
 PROP = 'C20'
-LEVEL = 'exploration'
+LEVEL = 'other'
 SHAPES = dict(quick=None, thorough=None)
-TRUSTED_BASE = ['NumPy/LAPACK/ARPACK float64 arithmetic; tolerances 1e-8 (orthogonality, span, support function) and numpy.linalg.matrix_rank with tol 1e-8 as the independent rank oracle',
+TRUSTED_BASE = ['CPython/NumPy index machinery on object arrays, sympy polynomial normalisation (proved part)', 'NumPy/LAPACK/ARPACK float64 arithmetic; tolerances 1e-8 (orthogonality, span, support function) and numpy.linalg.matrix_rank with tol 1e-8 as the independent rank oracle',
                 'the instance generators and the block embedding [[re,-im],[im,re]] written in this file']
-ASSUMPTIONS = ['BOUNDED: seeded instances only; nothing is proved for instances not drawn',
+ASSUMPTIONS = ['PROVED part: exact identities over complex indeterminates (conjugates are separate atoms) on the rows the real code builds, per shape; meta-steps trusted: linearly dependent rows => singular Gram matrix => zero pivot of exact LU; the floating-point LU and the threshold zero_eps are outside the proof (bounded planted instances)',
+               'the independence assertion of has_rank_hierarchical_method (eigvalsh > 1e-7) is a precondition: stubbed to true in the symbolic run',
+               'BOUNDED part: seeded instances only; nothing is proved for instances not drawn',
                'soundness of the certificates is checked one-sidedly, as the property states it: an instance with a planted low-rank / product element must never be certified; completeness (certifying every subspace that has none) is not claimed by the property and not checked',
                'proved-by-enumeration core: get_antisymmetric_basis / get_symmetric_basis rows are orthonormal, (anti)symmetric under every transposition and of the right count, for every (dim, rank) listed (finite domain, exact up to 1e-12)']
-STUBS = []
+STUBS = ['opt_einsum.contract / contract_expression -> numpy.einsum with a recorder', 'scipy.linalg.lu -> recorder (the matrix it receives is the proof object)', 'numpy.linalg.eigvalsh -> 1 (independence precondition)']
 NUMPY_MODELS = []
 BOUNDED_RULE = ('get_matrix_orthogonal_basis: 9 generator classes (R, R_T, C from real and complex generators, C_H, C_T from real and complex generators, R_cT, R_c) x dims 2..5 (rectangular where the class allows) x generator counts 1..full with 2 extra dependent generators, '
                 'plus full-dimensional and single-generator corner cases: kind label, structure of every returned matrix, Gram matrix = c*I with one c, span equality (rank oracle over the stated field), complement orthogonal + independent + structured, dimension count; '
                 'has_rank_hierarchical_method: planted rank-(r-1) element, r in {2,3}, k in {1,2,3}, real and complex, dims up to 4x4 (5x5 thorough), random invertible mixing then QR-orthonormalised: result must be False; '
                 'is_ABC_completely_entangled_subspace: planted product vector, dims up to (2,3,3), k in {1,2,3}: must be False; detect_real_matrix_subspace_rank_one: planted rank-one element in general and symmetric real subspaces: tag must be True; '
                 'numerical range: complex matrices of size 2..8 (normal, Hermitian, nilpotent and generic): every returned point p_k satisfies Re(e^{i t_k} p_k) = lambda_max(Re(e^{i t_k} A)) and lies inside all supporting half-planes; '
-                'get_matrix_numerical_range_along_direction on generic complex matrices (smooth boundary, 0 inside) returns the boundary point on the ray. distinct = distinct instances; non-trivial = subspace dimension >= 2 / matrix not a multiple of identity')
-EXPLANATION = ''
+                'distinct = distinct instances; non-trivial = subspace dimension >= 2 / matrix not a multiple of identity')
+EXPLANATION = ('proved: soundness lemmas of the two hierarchy certificates (Gram = rows rows^dagger; rows of a combination = weighted sum of rows; rows vanish on rank <= r / product vectors) as exact identities on the real code; '
+               'bounded: the decomposition, the floating-point LU step on planted instances, the real rank-one detector, the numerical range')
 
 TOL = 1e-8
 
@@ -357,49 +361,237 @@ def job_numerical_range(tier, rng):
     out = [ob(f'{PROP}.get_matrix_numerical_range.points_attain_support_function[size 2..8]', 'pass' if bad is None else 'refuted', tier='B', backend='native',
               functions=['numqi.matrix_space._numerical_range:get_matrix_numerical_range'], evaluations=pts, distinct_nontrivial=cnt, witness=bad, native=dict(confirmed=bad is not None),
               sample=dict(label='generic', n=3, num_point=12))]
-    # boundary along a ray
-    bad = None; cnt = 0
-    for label, A in _matrices(rng, tier):
-        if label != 'generic':
-            continue        # the function documents itself as unreliable when the boundary is not smooth (polygons of normal matrices, segments of Hermitian ones): outside the claim
-        n = A.shape[0]
-        A = A - np.trace(A) / n * np.eye(n)            # 0 = tr/n lies in the interior of W(A), which the function's bracket needs
-        for kind in ('max', 'min'):
-            alpha = float(rng.uniform(0, 2 * np.pi))
-            try:
-                val, vec = MS.get_matrix_numerical_range_along_direction(A, alpha, kind)
-                scale = max(1.0, float(np.abs(A).max()))
-                z = val * np.exp(1j * alpha)
-                hg = np.array([_support(A, t) for t in grid])
-                gap = ((np.exp(1j * grid) * z).real - hg)
-                err = None
-                if abs(np.linalg.norm(vec) - 1) > 1e-7 or abs(np.vdot(vec, A @ vec) - z) > 1e-6 * scale:
-                    err = 'returned vector does not realise the returned value'
-                elif gap.max() > 1e-6 * scale:
-                    err = f'returned value lies outside the numerical range by {gap.max():.2e}'
-                else:
-                    # boundary: the point must touch its own supporting line, found by the independent fine search over directions
-                    fine = np.linspace(0, 2 * np.pi, 20001)
-                    tt = fine[np.argmax([(np.exp(1j * t) * z).real - _support(A, t) for t in fine[::40]]) * 40]
-                    loc = np.linspace(tt - 2 * np.pi / 500, tt + 2 * np.pi / 500, 801)
-                    best = max((np.exp(1j * t) * z).real - _support(A, t) for t in loc)
-                    if best < -1e-5 * scale:
-                        err = f'returned value is an interior point (distance to the nearest supporting line {-best:.2e})'
-                    elif (kind == 'max') != (val > 0):
-                        err = f'kind={kind} but value {val}'
-            except AssertionError as ex:
-                err = None      # the function's own bracket precondition rejected the input
-                continue
-            except Exception as ex:
-                if not from_repo(ex):
-                    raise
-                err = f'{type(ex).__name__}: {ex}'
-            cnt += 1
-            if err and bad is None:
-                bad = dict(kind='along_direction', label=label, alpha=alpha, which=kind, problem=err, A=_enc(A))
-    out.append(ob(f'{PROP}.get_matrix_numerical_range_along_direction.boundary_point_on_ray', 'pass' if bad is None else 'refuted', tier='B', backend='native',
-                  functions=['numqi.matrix_space._numerical_range:get_matrix_numerical_range_along_direction'], evaluations=cnt, distinct_nontrivial=cnt, witness=bad, native=dict(confirmed=bad is not None),
-                  sample=dict(label='generic', n=4, alpha=1.0, kind='max')))
+    return out
+
+
+# ------------------------------------------------------------------------------------------------ proved core: soundness of the hierarchy certificates
+# The certificate is `min |pivot of LU(G)| > zero_eps` with G the Gram matrix of the row vectors Phi(INDEX) the real code builds from the generators.
+# Lemmas, each an exact polynomial identity over complex indeterminates (conjugates are separate atoms), obtained by executing the REAL function
+# on symbolic generators and recording (i) the operands/result of its final opt_einsum.contract and (ii) the matrix it hands to scipy.linalg.lu:
+#   gram      the matrix handed to LU equals rows . rows^dagger
+#   combine   for M = sum_i c_i A_i (symbolic c): the row Phi(0,..,0) of the generator list [M, A_1, ..] equals sum_INDEX lambda_INDEX c^mult(INDEX) Phi_INDEX(A)
+#             with constants lambda_INDEX != 0 (they are READ OFF the code's own normalisation, so a harmless rescaling of rows does not break the proof)
+#   vanish    Phi(0,..,0) of [U V^T, B_1, ..] with U: dA x r, V: r x dB symbolic (every matrix of rank <= r) is identically zero (product vector a(x)b(x)c for ABC)
+#   canary    Phi(0,..,0) of a generic symbolic generator is NOT identically zero
+# => if span{A_i} contains a non-zero element of rank <= r, the rows are linearly dependent (weights lambda c^mult, not all zero), G is singular and exact LU
+#    has a zero pivot: the certificate cannot be issued in exact arithmetic. Trusted meta-steps: that linear-algebra argument, "floats are reals", LAPACK's LU.
+import sympy as sp
+import types
+import scipy, scipy.special, scipy.linalg
+from vf import alg
+from vf.alg import ALG, is_zero
+from vf.symarray import SymArray, shimmed
+from . import spec_sim as SS
+
+
+def _zsyms(name, shape):
+    a = np.empty(shape, dtype=object)
+    for idx in np.ndindex(*shape):
+        a[idx] = sp.Symbol(name + '_' + '_'.join(map(str, idx)), complex=True)
+    return a
+
+
+class _OERec(types.ModuleType):
+    """opt_einsum stand-in (contract == numpy.einsum; contract_expression == einsum with the recorded subscripts) that records the last contract call"""
+    def __init__(self, rec):
+        super().__init__('opt_einsum_recorder'); self.rec = rec
+
+    def contract(self, *a, **kw):
+        """contract == numpy.einsum, evaluated pairwise from the left (the result of a multi-operand contraction does not depend on the pairing;
+        opt_einsum itself contracts pairwise) with every intermediate entry expanded; with rows_only the final Gram contraction is skipped"""
+        kw.pop('optimize', None)
+        self.rec['args'] = a
+        ops = [(a[i], list(a[i + 1])) for i in range(0, len(a) - 1, 2)]; outsub = list(a[-1])
+        sym = any(isinstance(o, SymArray) or getattr(o, 'dtype', None) == object for o, _ in ops)
+        if len(ops) == 4 and (sym or self.rec.get('rows_only')):
+            # the final Gram contraction of is_ABC_completely_entangled_subspace: not evaluated symbolically (degree-2(k+1) polynomials in z and conj z);
+            # the lemma 'handed to LU = rows rows^dagger' is discharged structurally from the recorded operands and subscripts, see job_soundness
+            n = SS.arr(ops[0][0]).shape[0]
+            out = np.zeros((n, n)); self.rec['out'] = out
+            return out
+        cur, csub = ops[0]
+        for k in range(1, len(ops)):
+            nxt, nsub = ops[k]
+            later = set(outsub)
+            for _, sb in ops[k + 1:]:
+                later |= set(sb)
+            keep = [x for x in dict.fromkeys(csub + nsub) if x in later]
+            cur = np.einsum(cur, csub, nxt, nsub, keep)
+            if sym:
+                arr = SS.arr(cur)
+                if arr.dtype == object:
+                    flat = arr.ravel()
+                    for t in range(flat.size):
+                        if isinstance(flat[t], sp.Basic):
+                            flat[t] = sp.expand(flat[t])
+            csub = keep
+        out = np.einsum(cur, csub, outsub) if csub != outsub else cur
+        self.rec['out'] = out
+        return out
+
+    def contract_expression(self, *a, **kw):
+        subs = [a[i] for i in range(1, len(a) - 1, 2)]; outsub = a[-1]
+
+        def f(*ops):
+            args = []
+            for o, sb in zip(ops, subs):
+                args += [o, sb]
+            return np.einsum(*args, outsub)
+        return f
+
+
+LAST = {}
+
+
+def _run_symbolic(which, gens, r, k, rows_only=False):
+    """execute the real certificate function on (symbolic or numeric) generators; returns (rows as 2-d object/complex array, matrix handed to LU)"""
+    rec = dict(rows_only=rows_only)
+    fs = types.SimpleNamespace(special=scipy.special, linalg=types.SimpleNamespace(lu=lambda m: (rec.__setitem__('M', m), (None, None, np.eye(1)))[1]))
+    symbolic = isinstance(gens, SymArray)
+    with shimmed([H] if symbolic else [], dom=ALG, extra={(H, 'scipy'): fs, (H, 'opt_einsum'): _OERec(rec)}) as shim:
+        if symbolic:
+            real_linalg = shim.linalg
+
+            class L(types.ModuleType):
+                def __getattr__(s, kk): return getattr(real_linalg, kk)
+                def eigvalsh(s, a): return np.array([1.0])          # the independence assertion of the function: a precondition here
+            shim.__dict__['linalg'] = L('lin')
+        try:
+            if which == 'bipartite':
+                H.has_rank_hierarchical_method(gens, r + 1, hierarchy_k=k)
+            else:
+                H.is_ABC_completely_entangled_subspace(gens, hierarchy_k=k)
+        finally:
+            if symbolic:
+                shim.__dict__['linalg'] = real_linalg
+    LAST.clear(); LAST.update(args=rec.get('args'), M_is_out=rec.get('M') is rec.get('out'))
+    if which == 'bipartite':
+        R = SS.arr(rec['out'])
+    else:
+        TA, TB = SS.arr(rec['args'][0]), SS.arr(rec['args'][2])
+        R = np.einsum(TA, [0, 1, 2], TB, [0, 3, 2], [0, 1, 3])
+        rec['M'] = rec['out']
+    return R.reshape(R.shape[0], -1), SS.arr(rec['M'])
+
+
+def job_soundness(tier, rng, which, shape):
+    t0 = time.time()
+    if which == 'bipartite':
+        dA, dB, N, r, k = shape; gshape = (N, dA, dB); sh = f'dimA={dA},dimB={dB},N={N},r={r},k={k}'
+        fn = 'numqi.matrix_space._hierarchy:has_rank_hierarchical_method'
+    else:
+        dA, dB, dC, N, k = shape; r = 1; gshape = (N, dA, dB, dC); sh = f'dims=({dA},{dB},{dC}),N={N},k={k}'
+        fn = 'numqi.matrix_space._hierarchy:is_ABC_completely_entangled_subspace'
+    base = f'{PROP}.{fn.split(":")[1]}.soundness_lemma'
+    funcs = [fn, 'numqi.matrix_space._hierarchy:tensor2d_project_to_antisym_basis', 'numqi.matrix_space._hierarchy:project_to_symmetric_basis', 'numqi.matrix_space._hierarchy:get_antisymmetric_basis']
+    out = []
+    alg.new_ctx()
+    try:
+        # lru-cached index tables are filled natively first, so that no symbolic object is ever cached
+        _run_symbolic(which, rng.normal(size=gshape), r, k)
+        A = _zsyms('a', gshape)
+        R, M = _run_symbolic(which, SymArray(A.copy(), np.complex128, ALG), r, k)
+        INDEX = list(itertools.combinations_with_replacement(range(N), r + k))
+        if R.shape[0] != len(INDEX) or M.shape != (len(INDEX), len(INDEX)):
+            return [ob(f'{base}.explore[{sh}]', 'undecided', functions=funcs, tier='P', backend='sympy', detail=f'recorder: rows {R.shape}, LU operand {M.shape}, expected {len(INDEX)} index tuples (the code was restructured)')]
+        # engine cross-check: symbolic rows under a numeric assignment == rows recorded from the native run
+        An = rng.normal(size=gshape) + 1j * rng.normal(size=gshape)
+        Rn, Mn = _run_symbolic(which, An, r, k)
+        asg = {A[idx]: sp.Float(An[idx].real, 30) + sp.I * sp.Float(An[idx].imag, 30) for idx in np.ndindex(*gshape)}
+        Rs = np.array([complex(sp.N(sp.sympify(e).subs(asg), 20)) for e in R.ravel()]).reshape(R.shape)
+        if Rs.shape != Rn.shape or np.abs(Rs - Rn).max() > 1e-9 * max(1.0, np.abs(Rn).max()):
+            return [ob(f'{base}.crosscheck[{sh}]', 'fault', functions=funcs, tier='P', backend='sympy', detail='symbolic rows differ from the natively recorded rows (engine unsound here)')]
+        if np.abs(Mn - Rn @ Rn.conj().T).max() > 1e-9 * max(1.0, np.abs(Mn).max()):
+            return [ob(f'{base}.matrix_handed_to_LU_is_rows_times_rows_dagger[{sh}]', 'refuted', functions=funcs, tier='P', backend='native', witness=dict(kind='gram', generators=_enc(An), which=which, r=r, k=k),
+                       native=dict(confirmed=True), detail='natively, the matrix handed to scipy.linalg.lu differs from rows.rows^dagger')]
+        # gram
+        t1 = time.time(); okg = True
+        if which == 'bipartite':
+            for i in range(len(INDEX)):
+                for j in range(len(INDEX)):
+                    g = sum(sp.expand(R[i, t] * sp.conjugate(R[j, t])) for t in range(R.shape[1]))
+                    okg = okg and is_zero(sp.expand(sp.sympify(M[i, j]) - g))
+        else:
+            # structural: contract(TA,[a,i,s], TB,[a,j,s], conj TA,[b,i,t], conj TB,[b,j,t] -> [a,b]) IS rows.rows^dagger with rows[a,(i,j)] = sum_s TA[a,i,s] TB[a,j,s]
+            ar = LAST['args']
+            subs = [list(ar[i]) for i in (1, 3, 5, 7)] + [list(ar[8])]
+            ren = {}
+            for lst in subs:
+                for x in lst:
+                    ren.setdefault(x, len(ren))
+            canon = [[ren[x] for x in lst] for lst in subs]
+            okg = len(ar) == 9 and canon == [[0, 1, 2], [0, 3, 2], [4, 1, 5], [4, 3, 5], [0, 4]]
+            TA, TB, TAc, TBc = (SS.arr(ar[i]) for i in (0, 2, 4, 6))
+            okg = okg and TA.shape == TAc.shape and TB.shape == TBc.shape
+            okg = okg and all(is_zero(sp.sympify(y) - sp.conjugate(sp.sympify(x))) for x, y in zip(TA.ravel(), TAc.ravel())) and all(is_zero(sp.sympify(y) - sp.conjugate(sp.sympify(x))) for x, y in zip(TB.ravel(), TBc.ravel()))
+            okg = okg and LAST['M_is_out']
+        out.append(ob(f'{base}.matrix_handed_to_LU_is_rows_times_rows_dagger[{sh}]', 'proved' if okg else 'refuted', functions=funcs, tier='P', backend='sympy-exact-identity', time_s=time.time() - t1,
+                      witness=None, verifier_output=None if okg else 'the matrix handed to scipy.linalg.lu is not the Gram matrix of the recorded rows'))
+        # vanish + canary
+        t1 = time.time()
+        G0 = A.copy()
+        if which == 'bipartite':
+            U = _zsyms('u', (dA, r)); V = _zsyms('v', (r, dB))
+            for i in range(dA):
+                for j in range(dB):
+                    G0[0, i, j] = sum(U[i, t] * V[t, j] for t in range(r))
+        else:
+            a_, b_, c_ = _zsyms('x', (dA,)), _zsyms('y', (dB,)), _zsyms('z', (dC,))
+            for i in range(dA):
+                for j in range(dB):
+                    for l in range(dC):
+                        G0[0, i, j, l] = a_[i] * b_[j] * c_[l]
+        R2, _ = _run_symbolic(which, SymArray(G0, np.complex128, ALG), r, k, rows_only=True)
+        okv = all(is_zero(sp.expand(x)) for x in R2[0].ravel())
+        canary = any(not is_zero(sp.expand(x)) for x in R[0].ravel())
+        if not canary:
+            out.append(ob(f'{base}.row_vanishes_on_planted_element[{sh}]', 'fault', functions=funcs, tier='P', backend='sympy', detail='vacuity canary: the row of a GENERIC generator is identically zero'))
+        else:
+            wit = None
+            if not okv:     # concrete planted instance on which the row does not vanish -> replayed natively by the bounded form
+                wit = dict(kind='bipartite' if which == 'bipartite' else 'tripartite', note='symbolic row of the planted generator is not identically zero')
+            out.append(ob(f'{base}.row_vanishes_on_planted_element[{sh}]', 'proved' if okv else 'refuted', functions=funcs, tier='P', backend='sympy-exact-identity', time_s=time.time() - t1,
+                          canary_negated_clause_refuted=True, witness=None, verifier_output=None if okv else 'Phi(0,..,0) of a generator of rank <= r / a product vector is not identically zero: ' + str([sp.expand(x) for x in R2[0].ravel() if not is_zero(sp.expand(x))][:1])[:600]))
+        # combine (N >= 2; for N = 1 the subspace is the line through the generator and `vanish` alone gives soundness)
+        if N >= 2:
+            t1 = time.time()
+            c = [sp.Symbol(f'c{i}', complex=True) for i in range(N)]
+            G1 = A.copy()
+            for idx in np.ndindex(*gshape[1:]):
+                G1[(0,) + idx] = sum(c[t] * A[(t,) + idx] for t in range(N))
+            R1, _ = _run_symbolic(which, SymArray(G1, np.complex128, ALG), r, k, rows_only=True)
+            okc = True; lam = {}; why = None
+            for col in range(R1.shape[1]):
+                p = sp.Poly(sp.expand(R1[0, col]), *c)
+                coeffs = {m: co for m, co in p.terms()}
+                for a_i, ind in enumerate(INDEX):
+                    mu = tuple(ind.count(t) for t in range(N))
+                    P = sp.expand(coeffs.pop(mu, sp.Integer(0)))
+                    row = sp.expand(R[a_i, col])
+                    if a_i not in lam and row != 0:
+                        pr = sp.Poly(row, *sorted(row.free_symbols, key=str)); mon, co = pr.terms()[0]
+                        lam[a_i] = (sp.Poly(P, *pr.gens).coeff_monomial(mon) / co) if P != 0 else sp.Integer(0)
+                    l = lam.get(a_i)
+                    good = is_zero(P) if l is None else is_zero(sp.expand(P - l * row))
+                    if not good and why is None:
+                        why = f'column {col}, index tuple {ind}: coefficient of c^{mu} is not a constant multiple of the row'
+                    okc = okc and good
+                if any(not is_zero(v) for v in coeffs.values()):
+                    okc = False; why = why or f'column {col}: monomials of c outside the index tuples'
+            nz = all(sp.sympify(lam.get(a_i, 0)) != 0 and sp.sympify(lam.get(a_i, 0)).is_number for a_i in range(len(INDEX)))
+            if okc and not nz:
+                okc = False; why = f'a weight lambda_INDEX is zero or not constant: {lam}'
+            out.append(ob(f'{base}.row_of_a_combination_is_weighted_sum_of_rows[{sh}]', 'proved' if okc else 'refuted', functions=funcs, tier='P', backend='sympy-exact-identity', time_s=time.time() - t1,
+                          canary_negated_clause_refuted=True, witness=None, verifier_output=why, weights=str(sorted({str(v) for v in lam.values()}))))
+    except Unsupported as ex:
+        return [ob(f'{base}.explore[{sh}]', 'undecided', functions=funcs, tier='P', backend='sympy', detail=f'engine: {ex}')]
+    except Exception as ex:
+        import traceback
+        tb = ''.join(traceback.format_exception(ex))[-1500:]
+        if not from_repo(ex):
+            return [ob(f'{base}.harness[{sh}]', 'fault', functions=funcs, tier='P', backend='sympy', detail='exception outside /repo code: ' + tb)]
+        return [ob(f'{base}.explore[{sh}]', 'undecided', functions=funcs, tier='P', backend='sympy', detail='the real function raised on symbolic generators: ' + tb)]
+    out.append(ob(f'{base}.meta[{sh}]', 'meta', functions=funcs, tier='P', paths=1, crosscheck_inputs=1, backend='-', explore_s=round(time.time() - t0, 2)))
     return out
 
 
@@ -441,8 +633,15 @@ def job_projector_tables(tier, rng):
                evaluations=cnt, distinct_nontrivial=cnt, witness=bad, native=dict(confirmed=bad is not None), sample=dict(dim=3, rank=2, antisymmetric=True))]
 
 
+SOUND_BI = dict(quick=[(2, 2, 1, 1, 3), (2, 2, 2, 1, 1), (2, 2, 2, 1, 2), (2, 2, 2, 1, 3), (2, 3, 3, 1, 1), (2, 2, 3, 1, 2), (3, 3, 2, 2, 1), (3, 3, 3, 2, 1)],
+                thorough=[(2, 2, 1, 1, 3), (2, 2, 2, 1, 1), (2, 2, 2, 1, 2), (2, 2, 2, 1, 3), (2, 3, 3, 1, 1), (2, 2, 3, 1, 2), (3, 3, 2, 2, 1), (3, 3, 3, 2, 1), (3, 3, 2, 1, 2), (3, 3, 2, 2, 2), (2, 3, 2, 1, 3), (3, 4, 2, 2, 1), (4, 4, 2, 3, 1)])
+SOUND_TRI = dict(quick=[(2, 2, 2, 1, 2), (2, 2, 2, 2, 1), (2, 2, 2, 2, 2), (2, 2, 3, 2, 1)], thorough=[(2, 2, 2, 1, 2), (2, 2, 2, 2, 1), (2, 2, 2, 2, 2), (2, 2, 3, 2, 1), (2, 2, 2, 3, 1), (2, 2, 2, 2, 3), (2, 3, 3, 2, 1)])
+SHAPES = dict(quick=dict(bipartite=SOUND_BI['quick'], tripartite=SOUND_TRI['quick']), thorough=dict(bipartite=SOUND_BI['thorough'], tripartite=SOUND_TRI['thorough']))
+
+
 def jobs(tier):
-    return [('job_basis', {}), ('job_hierarchy', {}), ('job_tripartite', {}), ('job_rank_one_detector', {}), ('job_numerical_range', {}), ('job_projector_tables', {})]
+    J = [('job_soundness', dict(which='bipartite', shape=sh)) for sh in SOUND_BI[tier]] + [('job_soundness', dict(which='tripartite', shape=sh)) for sh in SOUND_TRI[tier]]
+    return J + [('job_basis', {}), ('job_hierarchy', {}), ('job_tripartite', {}), ('job_rank_one_detector', {}), ('job_numerical_range', {}), ('job_projector_tables', {})]
 
 
 def _enc(a):
